@@ -1,5 +1,5 @@
 """C07: related file names always go to the same worker."""
-import json, os
+import json, os, random
 from vlib import *
 
 CFG = """
@@ -8,32 +8,50 @@ NEXT Next
 INVARIANT AlgRefinesRef
 INVARIANT Emit
 """
+VAL_CFG = """
+INIT Init
+NEXT Next
+INVARIANT AlgOk
+INVARIANT Emit
+"""
 PLAN = {
-    'quick': [('adds4-names4', {'Names': '{"A","B","C","D"}', 'NONE': '"-"', 'MaxAdds': 4, 'Threads': '{1,2,3,4096}', 'EmitCases': 'TRUE'}, None)],
-    'thorough': [('adds4-names5', {'Names': '{"A","B","C","D","E"}', 'NONE': '"-"', 'MaxAdds': 4, 'Threads': '{1,2,3,4096}', 'EmitCases': 'TRUE'}, None),
-                 ('sim-adds10-names7', {'Names': '{"A","B","C","D","E","F","G"}', 'NONE': '"-"', 'MaxAdds': 10, 'Threads': '{1,2,3,5,4096}', 'EmitCases': 'TRUE'},
-                  'num=20000')],
+    'quick': [('adds4-names4', {'Names': '{"A","B","C","D"}', 'NONE': '"-"', 'MaxAdds': 4, 'Threads': '{1,2,3,4096}', 'EmitCases': 'TRUE'}, 0),
+              ('random-adds10-names7', None, 4000)],
+    'thorough': [('adds4-names5', {'Names': '{"A","B","C","D","E"}', 'NONE': '"-"', 'MaxAdds': 4, 'Threads': '{1,2,3,4096}', 'EmitCases': 'TRUE'}, 0),
+                 ('random-adds12-names8', None, 60000)],
 }
 
 
 def check(prop, tier):
     res = Result(prop, tier)
     work = scratch(prop)
+    rnd = random.Random(seed())
     try:
-        for tag, consts, sim in PLAN[tier]:
+        for tag, consts, nrandom in PLAN[tier]:
             out = os.path.join(work, tag + '.tlc')
-            extra = ['-depth', '12', '-seed', str(seed())] if sim else []
-            st = tlc('MC_Dist', constants=consts, cfg_body=CFG, out=out, tag=tag, simulate=sim, extra=extra)
-            if sim:
-                st['distinct'] = st['distinct'] or 0
+            if consts is None:
+                # seeded random sequences beyond the exhaustive bound; TLC (Val_Dist) checks the algorithm model on them
+                # and computes the components the real distributor is compared with
+                names = ['A', 'B', 'C', 'D', 'E', 'F', 'G', 'H'][:7 if tier == 'quick' else 8]
+                recs = os.path.join(work, tag + '.ndjson')
+                with open(recs, 'w') as f:
+                    for k in range(nrandom):
+                        adds = []
+                        for _ in range(rnd.randint(4, 10 if tier == 'quick' else 12)):
+                            x = rnd.choice(names)
+                            y = rnd.choice(names + ['-']) if rnd.random() < 0.8 else '-'
+                            adds.append([x, y])
+                        f.write(json.dumps({'id': k, 'adds': adds}) + '\n')
+                st = tlc('Val_Dist', constants={'Names': '{' + ','.join('"%s"' % x for x in names) + '}', 'NONE': '"-"', 'Threads': '{1,2,3,5,4096}'},
+                         cfg_body=VAL_CFG, out=out, tag=tag, env={'RQ_RECORDS': recs})
+            else:
+                st = tlc('MC_Dist', constants=consts, cfg_body=CFG, out=out, tag=tag)
             res.add_tlc(st, tag)
             rep = json.loads(rqh(['dist', out, '-', '1,2,3,4,7,16,4096']))
             c = rep['counts']
             res.cov['parts'][tag].update(c)
             if c.get('cases', 0) == 0:
                 raise ToolError(tag + ': no cases')
-            if sim:
-                res.cov['states'] += c['cases']; res.cov['transitions'] += c['cases']
             res.cov['traces_validated_against_impl'] += c.get('runs', 0)
             res.cov['evaluations'] += c.get('runs', 0)
             res.cov['distinct_nontrivial'] += c.get('cases_with_relation', 0)
@@ -43,10 +61,37 @@ def check(prop, tier):
                 for s in rep['samples'].get(key, []):
                     res.violation(key, s['what'], s)
             os.unlink(out)
+        # at the level of the tool: scenarios in which file patches relate two names (differing ---/+++ names, renames);
+        # if related names were handled by two workers, a worker would patch a stale copy: the parallel result must be the reference
+        import p_tool, ws, re
+        from multiprocessing import Pool
+        out, st = p_tool.enumerate_scenarios(res, 'related-names-scenarios', 'TreesSmall' if tier == 'quick' else 'TreesAll', 'TRUE', 2, 'Cfgs_one', work, 'FALSE')
+        lines = [l for l in open(out, errors='replace') if l.startswith('"{') and re.search(r'\\"old\\":\\"a\\",\\"new\\":\\"b\\"', l)]
+        os.unlink(out)
+        pick = rnd.sample(lines, min(len(lines), 1200 if tier == 'quick' else 15000))
+        jobs = []
+        for li, line in enumerate(pick):
+            sc = json.loads(json.loads(line))
+            o = sc['outs'][0]
+            if o['out']['adversarial']:
+                continue
+            jobs.append((sc, o['cfg'], o['out'], 2 + li % 3, None))
+        with Pool(12) as pool:
+            outs = pool.map(p_tool.run_one, jobs, chunksize=16)
+        nb = 0
+        for (sc, cfg, o, threads, _), (probs, rc, se) in zip(jobs, outs):
+            for cat, msg in probs:
+                if cat in ('tree', 'crash', 'rej-set', 'exit', 'backup-content', 'backup-set'):
+                    nb += 1
+                    res.violation('cli:' + cat, 'series that relates file names, %d threads: the result is not the reference one (%s)' % (threads, msg),
+                                  {'tree0': sc['tree0'], 'series': sc['series'], 'cfg': cfg, 'threads': threads, 'reference': o})
+        res.cov['parts']['related-names-scenarios'].update({'scenarios_relating_names': len(lines), 'runs': len(jobs), 'bad': nb})
+        res.cov['traces_validated_against_impl'] += len(jobs)
+        ws.cleanup_all()
     finally:
         shutil.rmtree(work, ignore_errors=True)
     res.cov['exhaustive'] = True
-    res.cov['rule'] = ('every sequence of add(x, y|none) calls up to MaxAdds over the names (TLC, exhaustive; thorough adds simulated longer sequences); '
+    res.cov['rule'] = ('every sequence of add(x, y|none) calls up to MaxAdds over the names (TLC, exhaustive) plus seeded random sequences of 4-12 calls over 7-8 names judged by TLC (Val_Dist); '
                        'each sequence x thread count in {1,2,3,4,7,16,4096} is one run of the real FilenameDistributor; non-trivial = has at least one relation')
     res.assumptions += ['TLC computes connected components (Ref); harness compares the real name->thread map against them']
     return res
